@@ -9638,6 +9638,13 @@ impl<'a> Parser<'a> {
         if matches!(&variables, OneOrManyWithParens::One(variable) if variable.to_string().eq_ignore_ascii_case("NAMES")
             && dialect_of!(self is MySqlDialect | GenericDialect))
         {
+            if modifier.is_some() {
+                // SetNames has no field for SESSION / LOCAL
+                return self.expected(
+                    "SET NAMES without a SESSION / LOCAL modifier",
+                    self.peek_token(),
+                );
+            }
             if self.parse_keyword(Keyword::DEFAULT) {
                 return Ok(Statement::SetNamesDefault {});
             }
